@@ -179,3 +179,51 @@ func c09Scenarios(tier string) []*Scenario {
 	}
 	return out
 }
+
+// c09RaceScenarios: the whole scope API, recording and reporting used concurrently, free-running under -race.
+func c09RaceScenarios(tier string) []*Scenario {
+	mk := func(test bool) *Scenario {
+		sc := &Scenario{Property: "C09", Name: fmt.Sprintf("X-api-mix-testscope=%v", test)}
+		sc.Body = func(x *Run) {
+			var root tally.Scope
+			var ts tally.TestScope
+			rec := &Recorder{}
+			if test {
+				ts = tally.VerifNewTestScopeOpts(tally.ScopeOptions{Prefix: "p"}, 2)
+				root = ts
+			} else {
+				root, _ = tally.VerifNewRootScope(scopeOpts(rec, true, false), 0, 2)
+			}
+			var ths []*rt.Thread
+			for i := 0; i < 3; i++ {
+				i := i
+				ths = append(ths, rt.GoNamed("user", func() {
+					for k := 0; k < 30; k++ {
+						s := root.Tagged(map[string]string{"k": fmt.Sprint(k % 2)}).SubScope("s")
+						s.Counter("c").Inc(1)
+						s.Gauge("g").Update(float64(k))
+						s.Timer("t").Record(time.Duration(k))
+						s.Histogram("h", tally.ValueBuckets{1, 2}).RecordValue(float64(k % 3))
+						if k%10 == 9 && i == 0 {
+							closeScope(s)
+						}
+					}
+				}))
+			}
+			ths = append(ths, rt.GoNamed("reporter", func() {
+				for k := 0; k < 10; k++ {
+					if test {
+						_ = ts.Snapshot()
+					} else {
+						tally.VerifReportOnce(root)
+					}
+				}
+			}))
+			for _, t := range ths {
+				t.Join()
+			}
+		}
+		return sc
+	}
+	return []*Scenario{mk(false), mk(true)}
+}
